@@ -75,6 +75,12 @@ theorem ng_checkedSub (a b : Nat) : NG (Cw.checkedSub a b) := by
   · exact NG.ok _
   · exact NG.err (by decide)
 
+theorem ng_validTo (w : World) (dst : Option Nat) : NG (validTo w dst) := by
+  unfold validTo
+  split
+  · exact NG.err (by decide)
+  · exact NG.ok _
+
 theorem ng_computeSwap (x y a c : Nat) : NG (computeSwap x y a c) := by
   unfold computeSwap
   refine NG.bind (ng_uint_mul _ _) fun _ => ?_
@@ -315,6 +321,8 @@ theorem pairExec_swap_error {w : World} {s p : Nat} {funds : List (Nat × Nat)} 
   | native d =>
     dsimp only at h
     rcases (bind_error_iff _ _ _).mp h with h | ⟨_, _, h⟩
+    · exact absurd h (ng_validTo _ _)
+    rcases (bind_error_iff _ _ _).mp h with h | ⟨_, _, h⟩
     · exact ⟨P, w0, d, hP, h0, rfl, h⟩
     · exact absurd h (pure_ne_error _ _)
 
@@ -376,6 +384,8 @@ theorem pairReceive_swap_error {w : World} {p t from_ amount : Nat} {offer : Ass
   split at h
   · cases h
   rename_i h3
+  rcases (bind_error_iff _ _ _).mp h with h | ⟨_, _, h⟩
+  · exact absurd h (ng_validTo _ _)
   rcases (bind_error_iff _ _ _).mp h with h | ⟨_, _, h⟩
   · exact ⟨by simpa using h1, Decidable.not_not.mp h2, Decidable.not_not.mp h3, h⟩
   · exact absurd h (pure_ne_error _ _)
@@ -523,6 +533,7 @@ theorem provide_guard_rejection {w : World} {p : Nat} {P : PairSt} {s : Nat} {fu
   · split
     · exact ng_tokMint _ _ _ _ _
     · exact NG.pure _
+  refine NG.bind (ng_validTo _ _) fun _ => ?_
   exact NG.bind (ng_tokMint _ _ _ _ _) fun w4 => NG.pure _
 
 /-- … lifted to the transaction -/
@@ -584,16 +595,17 @@ theorem swapOps_checked {name : Asset → String} {w w' : World} {sender : Nat} 
 theorem routerReceive_checked {name : Asset → String} {w w' : World} {from_ : Nat} {ops : List (Asset × Asset)}
     {mn toAddr : Option Nat} (h : routerReceive name w from_ (.routerOps ops mn toAddr) = .ok w') :
     assertOperations (opsTexts name ops) = .ok () :=
-  swapOps_checked (show routerSwapOps name w from_ ops mn toAddr = .ok w' from h)
+  by
+    obtain ⟨_, _, _, he, _, _, h⟩ := routerReceive_ok h
+    cases he
+    exact swapOps_checked h
 
 /-- direct `ExecuteSwapOperations` -/
 theorem routerExec_swapOps_checked {name : Asset → String} {w w' : World} {s : Nat} {funds : List (Nat × Nat)}
     {ops : List (Asset × Asset)} {mn toAddr : Option Nat}
     (h : routerExec name w s funds (.swapOps ops mn toAddr) = .ok w') :
     assertOperations (opsTexts name ops) = .ok () := by
-  unfold routerExec at h
-  simp only [bind_ok_iff] at h
-  obtain ⟨w0, _, h⟩ := h
+  obtain ⟨w0, _, _, h⟩ := routerExec_swapOps_ok h
   exact swapOps_checked h
 
 /-- a raw `Receive` sent to the router (by anyone) -/
